@@ -207,7 +207,7 @@ pub fn spec(prop: &str) -> Option<PropSpec> {
             adversarial: true,
             uses_reference: false,
             check: Box::new(|_, _, out, _| check_c12(out)),
-            rule: "same state space and answer-script exploration as C01 (every execution runs under catch_unwind), including duplicate keys / duplicated tags / non-canonical and non-finite numbers through the second value source; plus documents nested as deep as serde_json accepts (127 containers) into the recursive catalogue types and serde_json::Value, each run in a child process so that a stack overflow is attributed to its input. Finally every base payload of every type usable with the built-in error types, extended with long non-ASCII unknown keys at every object and long / control-character strings at every string leaf, is run with JsonError and QueryParamError (their message rendering runs inside deserialize). Oracle: the call returns.",
+            rule: "same state space and answer-script exploration as C01 (every execution runs under catch_unwind), including duplicate keys / duplicated tags / non-canonical and non-finite numbers through the second value source; plus documents nested as deep as serde_json accepts (127 containers) into the recursive catalogue types and serde_json::Value, each run in a child process so that a stack overflow is attributed to its input. Finally every base payload of every type usable with the built-in error types, extended with long non-ASCII unknown keys at every object and long / control-character strings at every string leaf, and — through the second value source — with NaN / +inf / -inf at every leaf in turn and at all leaves, is run with JsonError and QueryParamError (their message rendering runs inside deserialize). Oracle: the call returns.",
         },
         "C03" => PropSpec {
             id: "C03",
@@ -234,7 +234,7 @@ pub fn spec(prop: &str) -> Option<PropSpec> {
                 }
                 Ok(())
             }),
-            rule: "state space as C01 (canonical payloads). For every explored answer script: frame rule (after a Break answered in probe frame X nothing but hand-overs of the returned error happens until X exits), suffix rule (once all remaining answers are Break: no report, visit or user-function call; final error = reports made so far), prefix rule (log up to the first Break identical to the keep-going log), fail-fast corollary (all-Break run returns exactly the first keep-going report). The switch-once family C^k B^ω is always complete for every k up to the keep-going decision count.",
+            rule: "state space as C01 (canonical payloads). For every explored answer script: frame rule (after a Break answered in probe frame X nothing but hand-overs of the returned error happens until X exits), suffix rule (once all remaining answers are Break: no report, visit or user-function call; final error = reports made so far), prefix rule (log up to the first Break identical to the keep-going log), fail-fast corollary (all-Break run returns exactly the first keep-going report). The switch-once family C^k B^ω is always complete for every k up to the keep-going decision count. Finally the built-in always-stop error types: for every payload of every type usable with them, JsonError and QueryParamError fail iff the keep-going run reports something and return the description of its *first* report (including foreign errors that custom missing-field / unknown-key functions and try_from / validate hand to them).",
         },
         "C04" => PropSpec {
             id: "C04",
@@ -270,7 +270,7 @@ pub fn spec(prop: &str) -> Option<PropSpec> {
             let cfg = RefCfg { asp: Aspects::ALL, report_class: any_class, call_class: any_call };
             PropSpec {
                 id: "C06",
-                groups: &["F", "D", "E"],
+                groups: &["F", "D", "E", "H"],
                 scripts: Scripts::KeepOnly,
                 adversarial: false,
                 uses_reference: true,
@@ -285,7 +285,7 @@ pub fn spec(prop: &str) -> Option<PropSpec> {
             let cfg = RefCfg { asp: Aspects { status: true, value: true, reports: true, visited: true, calls: false }, report_class: cls, call_class: any_call };
             PropSpec {
                 id: "C07",
-                groups: &["A", "B1", "B2", "B3", "B4", "B5", "B6", "C2", "G"],
+                groups: &["A", "B1", "B2", "B3", "B4", "B5", "B6", "C2", "G", "H"],
                 scripts: Scripts::KeepOnly,
                 adversarial: false,
                 uses_reference: true,
@@ -309,7 +309,7 @@ pub fn spec(prop: &str) -> Option<PropSpec> {
             let cfg_dup = RefCfg { asp: Aspects { status: false, value: false, reports: true, visited: false, calls: true }, report_class: cls, call_class: calls_missing };
             PropSpec {
                 id: "C08",
-                groups: &["A", "B1", "B2", "B4", "B5", "B6", "C2", "G"],
+                groups: &["A", "B1", "B2", "B4", "B5", "B6", "C2", "G", "H"],
                 scripts: Scripts::KeepOnly,
                 adversarial: true,
                 uses_reference: true,
@@ -335,7 +335,7 @@ pub fn spec(prop: &str) -> Option<PropSpec> {
             let cfg = RefCfg { asp: Aspects { status: false, value: false, reports: true, visited: false, calls: true }, report_class: cls, call_class: calls };
             PropSpec {
                 id: "C09",
-                groups: &["A", "B1", "B3", "B4", "B5", "B6", "C2", "D", "G"],
+                groups: &["A", "B1", "B3", "B4", "B5", "B6", "C2", "D", "G", "H"],
                 scripts: Scripts::KeepOnly,
                 adversarial: false,
                 uses_reference: true,
@@ -347,7 +347,7 @@ pub fn spec(prop: &str) -> Option<PropSpec> {
             let cfg = RefCfg { asp: Aspects { status: true, value: true, reports: true, visited: true, calls: false }, report_class: any_class, call_class: any_call };
             PropSpec {
                 id: "C10",
-                groups: &["C1", "C2", "D", "G"],
+                groups: &["C1", "C2", "D", "G", "H"],
                 scripts: Scripts::KeepOnly,
                 adversarial: false,
                 uses_reference: true,
@@ -362,7 +362,7 @@ pub fn spec(prop: &str) -> Option<PropSpec> {
             let cfg = RefCfg { asp: Aspects { status: false, value: true, reports: true, visited: false, calls: true }, report_class: cls, call_class: any_call };
             PropSpec {
                 id: "C11",
-                groups: &["A", "B2", "C1", "C2", "E", "G"],
+                groups: &["A", "B2", "C1", "C2", "E", "G", "H"],
                 scripts: Scripts::Tree,
                 adversarial: false,
                 uses_reference: true,
@@ -400,6 +400,12 @@ pub fn run_catalogue(e: &Engine, prop: &str) -> i32 {
     if sp.id == "C09" {
         crate::invariance::run_extras(e, &rec);
     }
+    if sp.id == "C03" {
+        // last clause of C03: the built-in always-stop error types return exactly the first report
+        // of the keep-going run (the comparison C14 makes, here over the same payload space)
+        let ks = crate::messages::first_report_pass(e, &rec, "C03");
+        rec.set_extra("always_stop_builtin_error_types_(error type:kind:depth)", serde_json::json!(ks));
+    }
     if sp.id == "C06" {
         run_sizes(e, &rec);
     }
@@ -436,6 +442,8 @@ fn check_c11_rules(_c: &Case, out: &Outcome) -> Result<(), String> {
                     let ok = match (src, prev) {
                         (ForeignSrc::Conv { .. }, Some(Event::UserFn(UserCall::Conv { ok: false, .. })))
                         | (ForeignSrc::Conv { .. }, Some(Event::UserFn(UserCall::ContainerConv { ok: false, .. })))
+                        | (ForeignSrc::Conv { .. }, Some(Event::UserFn(UserCall::CustomMissing { .. })))
+                        | (ForeignSrc::Conv { .. }, Some(Event::UserFn(UserCall::CustomUnknown { .. })))
                         | (ForeignSrc::Validate { .. }, Some(Event::UserFn(UserCall::Validate { ok: false, .. }))) => true,
                         _ => false,
                     };
@@ -455,7 +463,37 @@ fn check_c11_rules(_c: &Case, out: &Outcome) -> Result<(), String> {
                 }
             }
             Event::Exit { ok, .. } => last_exit = Some((i, *ok, fr.stack_at[i].len())),
-            Event::UserFn(u) => match u {
+            Event::UserFn(u) => {
+                // a failure returned by try_from / validate is handed to the error type straight away
+                // (whatever its type: a foreign error, or the container's own error type built inside
+                // the function), at the container's location for validate
+                let failed_at: Option<Option<&Loc>> = match u {
+                    UserCall::Conv { ok: false, .. } | UserCall::ContainerConv { ok: false, .. } => Some(None),
+                    UserCall::Validate { ok: false, loc, .. } => Some(Some(loc)),
+                    _ => None,
+                };
+                if let Some(want_loc) = failed_at {
+                    let mut inside: Vec<u32> = vec![];
+                    let mut handed = false;
+                    for x in &out.events[i + 1..] {
+                        match x {
+                            Event::Report { id, answer_ignored: true, .. } => inside.push(*id),
+                            Event::Foreign { loc, .. } => {
+                                handed = want_loc.map(|l| l == loc).unwrap_or(true);
+                                break;
+                            }
+                            Event::HandOver { other_ids, loc, .. } => {
+                                handed = inside.iter().all(|id| other_ids.contains(id)) && !inside.is_empty() && want_loc.map(|l| l == loc).unwrap_or(true);
+                                break;
+                            }
+                            _ => break,
+                        }
+                    }
+                    if !handed {
+                        return Err(format!("the failure returned by {u:?} was not handed to the error type (at the container's location) right after the function returned"));
+                    }
+                }
+                match u {
                 UserCall::Conv { arg, fn_name, .. } => {
                     // directly after the intermediate value's probe exited ok
                     let prev = i.checked_sub(1).map(|j| &out.events[j]);
@@ -499,7 +537,8 @@ fn check_c11_rules(_c: &Case, out: &Outcome) -> Result<(), String> {
                     }
                 }
                 _ => {}
-            },
+                }
+            }
             _ => {}
         }
     }
